@@ -29,7 +29,12 @@ pub fn compare(expected: &Verdict, got: &StepOut) -> Option<(String, String)> {
 fn match_err(v: &Verdict, e: &ErrObs) -> Option<(String, String)> {
     let wrong = |why: &str| Some((format!("wrong_error:{}", v.class().split(':').next().unwrap_or("")), format!("{why}: expected {v:?}, got {} / {}", e.variant, e.display)));
     match v {
-        Verdict::Syntax { pos, dbg, .. } => {
+        Verdict::Syntax { pos, dbg, class } => {
+            if class.starts_with("Io(") && e.variant != "QuickXmlError" {
+                // an injected hard I/O failure is not a syntax error: any error variant reports it faithfully;
+                // only if it is reported as the reader's error must position and payload be the reader's
+                return None;
+            }
             if e.variant != "QuickXmlError" {
                 return wrong("variant");
             }
